@@ -546,6 +546,10 @@ def g_nc_payload(rng, tier, props):
     return GN.payload_histories(rng, props, n_of(tier, 150, 3000), tier != "quick")
 
 
+def g_nc_takeover(rng, tier, props):
+    return GN.takeover_histories(rng, props, n_of(tier, 60, 1000))
+
+
 def g_nc_handshake(rng, tier, props):
     return GN.handshake_histories(rng, props, n_of(tier, 250, 5000), tier != "quick") + GN.expiry_histories(rng, props)
 
@@ -720,7 +724,7 @@ MSG_ASSUME = [
 ]
 
 PLANS = {
-    "C04": Plan("nc", "TraceNetcodeMon", ["C04"], [("payload_histories", g_nc_payload)],
+    "C04": Plan("nc", "TraceNetcodeMon", ["C04"], [("payload_histories", g_nc_payload), ("takeover_histories", g_nc_takeover)],
                 mc=[mc_job("nc_payload", "MC_Netcode", {"quick": ["MC_NC_q4.cfg"], "thorough": ["MC_NC_q4.cfg", "MC_NC_q1.cfg"]}, ["C04"], strict=False)],
                 level="model_checking", assumptions=NC_ASSUME),
     "C05": Plan("nc", "TraceNetcodeMon", ["C05"], [("handshake_histories", g_nc_handshake), ("token_table", g_nc_tokentable),
